@@ -249,6 +249,17 @@ func TestC12Flat(t *testing.T) {
 // anyNodeSetExpr draws a node-set expression from the union of the node-set fragments.
 func anyNodeSetExpr(g *xgen.G, rt *rapid.T, ctx *xdoc.Node) xast.Expr {
 	switch rapid.IntRange(0, 10).Draw(rt, "nsform") {
+	case 9:
+		// a positional predicate on the last step of a path over any axis (what it selects is
+		// claimed by no property; the relations between Select, Evaluate, count and reverse are)
+		p := g.AxisPath(ctx, xgen.PathOpts{MaxSteps: 3, AbsShare: 4, DSlash: 2})
+		if st, ok := p.Steps[len(p.Steps)-1].(*xast.Step); ok {
+			st.Preds = []xast.Expr{g.PosPred()}
+			if st.Abbr && (st.Axis == "self" || st.Axis == "parent") {
+				st.Abbr = false
+			}
+		}
+		return p
 	case 10:
 		// p/(s1, s2[, s3])
 		p := g.AxisPath(ctx, xgen.PathOpts{MaxSteps: 2, AbsShare: 5, DSlash: 3})
